@@ -85,7 +85,7 @@ func (e *Engine) verifyFunc(fn *ssa.Function, c *Contract) (fres *FuncResult) {
 	// implicit precondition: pointer receivers are non-nil
 	if fn.Signature.Recv() != nil && len(args) > 0 && args[0].K == KScalar {
 		if _, ok := fn.Params[0].Type().Underlying().(*types.Pointer); ok {
-			x.assume("true", sNot(sEq(args[0].T, "0")))
+			x.fact(sNot(sEq(args[0].T, "0")))
 		}
 	}
 	e.assumeAxioms(x, env)
@@ -95,7 +95,7 @@ func (e *Engine) verifyFunc(fn *ssa.Function, c *Contract) (fres *FuncResult) {
 		}
 		for _, r := range c.Requires {
 			cond := x.evalSpec(r.E, env)
-			x.assume("true", cond.T)
+			x.fact(cond.T)
 			// named model values for replay
 			_ = r
 		}
@@ -132,9 +132,9 @@ func (x *VC) allocatedFact(v *Val, st *State) {
 	}
 	switch v.GT.Underlying().(type) {
 	case *types.Pointer, *types.Map, *types.Chan:
-		x.assume("true", sOr(sEq(v.T, "0"), sSel(x.get(st, x.allocComp()), v.T)))
+		x.fact(sOr(sEq(v.T, "0"), sSel(x.get(st, x.allocComp()), v.T)))
 	case *types.Interface:
-		x.assume("true", sOr(sEq(v.T, "0"), sSel(x.get(st, x.allocComp()), v.T), sNot(x.isPtrTag(v.T))))
+		x.fact(sOr(sEq(v.T, "0"), sSel(x.get(st, x.allocComp()), v.T), sNot(x.isPtrTag(v.T))))
 	}
 }
 
@@ -197,7 +197,7 @@ func dischargeOne(x *VC, o *Oblig, toSec int, wantAll bool) {
 		t = 5
 	}
 	o.Result, o.All = runSolvers(script, gv, t, wantAll)
-	if o.Result.Status == "unsat" || (o.Expect == "sat" && o.Result.Status == "sat") {
+	if o.ok() {
 		o.Script = "" // keep memory small
 	}
 }
